@@ -470,6 +470,23 @@ func (e *Engine) verifyFunc(key string, timeoutS, seed int, allSolvers bool, sol
 			}
 		}
 	}
+	if con != nil && len(con.Modifies) > 0 && !con.Trusted {
+		// a declared frame can only be justified if everything the function calls is itself under contract:
+		// a callee without one may change state outside the frame
+		var unk []string
+		for _, k := range sortedKeys(fe.unknown) {
+			if !benignUnknown(k) {
+				unk = append(unk, shortKey(k))
+			}
+		}
+		goal := "true"
+		note := "every callee of a function that declares a frame is under contract"
+		if len(unk) > 0 {
+			goal = "false"
+			note = "callees without contract in a function that declares a frame (modifies …): " + strings.Join(unk, ", ")
+		}
+		fe.oblige(fr, "frame:callees_under_contract", frameProps(con), "true", goal, fn.Pos(), note)
+	}
 	res.Errs = append(res.Errs, fe.errs...)
 	res.Warns = append(res.Warns, fe.warns...)
 	res.Unknown = fe.unknown
@@ -512,6 +529,32 @@ func (e *Engine) verifyFunc(key string, timeoutS, seed int, allSolvers bool, sol
 	}
 	res.SolveMS = time.Since(t1).Milliseconds()
 	return res
+}
+
+// benignUnknown: callees that cannot touch tracked state (pure accessors of dependencies, error constructors).
+func benignUnknown(key string) bool {
+	for _, p := range []string{"go-cid.", "go-multihash.", "go-block-format.", "go-varint.", "fmt.", "errors.", "math.", "bytes.", "strings.", "strconv.", "sort.", "context.", "unsafe.", "dynamic:func(", "multicodec.", "encoding/binary.", "GoLLRB", "sync.Pool", "io.Discard"} {
+		if strings.Contains(key, p) {
+			return true
+		}
+	}
+	return false
+}
+
+// frameProps: the property tags of a contract's postconditions (the frame serves all of them).
+func frameProps(con *Contract) []string {
+	seen := map[string]bool{}
+	var out []string
+	for _, c := range con.Ensures {
+		for _, p := range c.Props {
+			if !seen[p] {
+				seen[p] = true
+				out = append(out, p)
+			}
+		}
+	}
+	sort.Strings(out)
+	return out
 }
 
 func (fe *FnExec) paramVals(fr *frame) []Val {
